@@ -62,7 +62,13 @@ R5S_PROFILE = P.profile(p_maximize=0.7, levels_w={1: 0, 2: 1, 3: 0}, level_limit
 def gen(seed, tier):
     k = seed % 10
     if k < 5:
-        pl = P.gen_plan(seed, TWIN_PROFILE, PROP)
+        prof = TWIN_PROFILE
+        if (seed // 10) % 3 == 0:
+            # plateau objectives (exact fitness ties) with SHADE / DE: tie handling must mirror too
+            prof = P.profile(**{**TWIN_PROFILE, "objective_kinds": ["stair", "stair", "abszero", "discont"],
+                                "root_engines": {"ea": 0, "de": 3, "shade": 5, "lhs": 1, "sobol": 1, "custom": 0.5},
+                                "leaf_engines": {"ea": 0, "de": 3, "shade": 4, "cma": 2, "local": 2}})
+        pl = P.gen_plan(seed, prof, PROP)
         pl["c13_mode"] = "twin"
         pl["maximize"] = True
         if pl["options"].get("random_seed") is None:
